@@ -232,11 +232,14 @@ class Engine:
                     raise core.tlcmod.MachineryError("IHex law fails in the specification itself: %s\n%s" % (e, e.text[:1500]))
         files = []
         seen = set()
-        for regions, start in inputs(ctx):
+        if ctx.only is not None:   # replay: the recorded input itself, independent of tier and seed
+            inp = ctx.only["case"]["input"]
+            cases = [([(a, bytes.fromhex(h)) for a, h in inp["regions"]], inp["start"])]
+        else:
+            cases = inputs(ctx)
+        for regions, start in cases:
             desc = describe(regions, start)
             key = "C18:%s:%s:{clause}:%s" % ("st" if start else "s0", "gap" if gap_fill(regions) else "seq", desc)
-            if ctx.only is not None and ctx.only.get("case", {}).get("file") != key:
-                continue
             if key in seen:
                 continue
             seen.add(key)
@@ -253,7 +256,7 @@ class Engine:
                 "small": nbytes <= SMALL,
                 "text": lines,
                 "input": {"desc": desc, "start": start,
-                          "regions": [[a, bytes(d).hex() if len(d) <= 64 else "%d bytes" % len(d)] for a, d in regions]},
+                          "regions": [[a, bytes(d).hex()] for a, d in regions]},
             })
             ctx.count(key)
         ctx.cov["records_validated"] = sum(len(f["lines"]) for f in files)
